@@ -34,7 +34,7 @@ def c_cx(rng):
         m = len(els)
         a = rng.choice([0, 1, -1, -2, -m, -(m - 1)])
         b = rng.choice([None, None, m, m + 3, m - 1])
-        cs = gen.Case(kind, els, [['slice', a, b, None]])
+        cs = gen.Case(kind, els, [['slice', a, b, None]], gen.pick_dtype(rng, els))
     n = len(cs.view)
     tb = oracle.total_bounds(kind, cs.view)
     bx = gen.box(rng, positive=True)
@@ -69,14 +69,14 @@ def c_cx(rng):
             recipe['index_state'] = 'built'
         elif state == 'parent-built':
             # the index is built on the source array, the query runs on what was derived from it afterwards
-            parent = gen.build(kind, cs.recipe['elements'])
+            parent = gen.build(kind, cs.recipe['elements'], cs.recipe.get('dtype', 'float64'))
             parent.build_sindex(p=rng.choice([1, 5, 10]), page_size=rng.choice([1, 2, 3, 512]))
             arr, _ = gen.apply_steps(parent, list(cs.recipe['elements']), cs.recipe['steps'])
         got = arr.cx[sx, sy]
-        gv = got.data.to_pylist() if kind != 'point' else [None if x is None else list(np.frombuffer(x, dtype='float64')) for x in got.data.to_pylist()]
+        gv = got.data.to_pylist() if kind != 'point' else [None if x is None else [float(c) for c in np.frombuffer(x, dtype=cs.dtype)] for x in got.data.to_pylist()]
         ev = cs.arr.take(np.array(exp, dtype='int64')).data.to_pylist() if exp else []
         if kind == 'point':
-            ev = [None if x is None else list(np.frombuffer(x, dtype='float64')) for x in ev]
+            ev = [None if x is None else [float(c) for c in np.frombuffer(x, dtype=cs.dtype)] for x in ev]
         if gv != ev:
             out.append(V(f'cx.array/{state}/{tag}', f'box {eff}: got {len(gv)} rows expected rows {exp}', recipe))
         # series / frame with labels and an extra column
@@ -135,8 +135,19 @@ def c_sjoin(rng):
                 pairs.append((li, ri))
     lidx = [rng.choice([0, 1, 2, 5, 7]) for _ in range(nl)]
     ridx = [f's{j}' for j in range(nr)]
-    left = sp.GeoDataFrame({'geometry': pts.arr, 'a': list(range(nl)), 'v': [10 * i for i in range(nl)]}, index=pd.Index(lidx, name='lid'))
-    right = sp.GeoDataFrame({'geometry': rs.arr, 'b': list(range(nr)), 'v': [7 * j for j in range(nr)]}, index=ridx)
+    index_kind = rng.choice(['explicit', 'explicit', 'range-offset', 'range-step'])
+    if index_kind == 'explicit':
+        left = sp.GeoDataFrame({'geometry': pts.arr, 'a': list(range(nl)), 'v': [10 * i for i in range(nl)]}, index=pd.Index(lidx, name='lid'))
+        right = sp.GeoDataFrame({'geometry': rs.arr, 'b': list(range(nr)), 'v': [7 * j for j in range(nr)]}, index=ridx)
+    else:
+        # default RangeIndex that does not start at 0 / has a step (a frame sliced out of a larger one): labels, not positions
+        start, step = (3, 1) if index_kind == 'range-offset' else (1, 2)
+        lidx = list(range(start, start + step * nl, step))
+        ridx = list(range(start + 1, start + 1 + step * nr, step))
+        left = sp.GeoDataFrame({'geometry': pts.arr, 'a': list(range(nl)), 'v': [10 * i for i in range(nl)]},
+                               index=pd.RangeIndex(start, start + step * nl, step, name='lid'))
+        right = sp.GeoDataFrame({'geometry': rs.arr, 'b': list(range(nr)), 'v': [7 * j for j in range(nr)]},
+                                index=pd.RangeIndex(start + 1, start + 1 + step * nr, step))
     how = rng.choice(['inner', 'left', 'right'])
     recipe = {'left': pts.recipe, 'right': rs.recipe, 'how': how, 'lidx': lidx}
     tag = f'{how}/{rkind}/{region_of(pts.view)}'
@@ -500,6 +511,61 @@ def c_pack(rng):
 
 
 c_pack.n = {'quick': 25, 'thorough': 150}
+
+
+@check(('C09', 'C08'), 'dask.pack_partitions-reference-distance')
+def c_pack_reference(rng):
+    """pack_partitions on point frames whose total extent is a power of two (or zero in one direction, widened by one):
+    the index must be each row's Hilbert distance as computed by an independent reference (exact cell + classical
+    curve), for frames lying on one horizontal or vertical line too"""
+    import dask
+    from fractions import Fraction as Fr
+    import spatialpandas as sp
+    from .checks_array import hilbert_xy2d
+    shape = rng.choice(['square', 'square', 'horizontal', 'vertical'])
+    ext = rng.choice([8, 16])
+    n = rng.choice([4, 6, 9])
+    q = lambda: rng.randint(0, 4 * ext) / 4.0
+    pts = [[q(), q()] for _ in range(n)]
+    c0 = float(rng.randint(-3, 3))
+    if shape == 'horizontal':
+        pts = [[x, c0] for x, _ in pts]
+    elif shape == 'vertical':
+        pts = [[c0, y] for _, y in pts]
+    # pin the extent
+    if shape != 'vertical':
+        pts[0][0], pts[1][0] = 0.0, float(ext)
+    if shape != 'horizontal':
+        pts[0][1], pts[1][1] = 0.0, float(ext)
+    rng.shuffle(pts)
+    p = rng.choice([1, 2, 3, 5])
+    side = 1 << p
+    xs, ys = [a for a, _ in pts], [b for _, b in pts]
+    x0, y0 = min(xs), min(ys)
+    ew = (max(xs) - x0) or 1.0
+    eh = (max(ys) - y0) or 1.0
+
+    def cell(v, lo, e):
+        c = int((Fr(v) - Fr(lo)) * side / Fr(e))
+        return min(max(c, 0), side - 1)
+    exp = [hilbert_xy2d(p, cell(a, x0, ew), cell(b, y0, eh)) for a, b in pts]
+    npart_in, npart_out = rng.choice([1, 2, 3]), rng.choice([1, 2])
+    recipe = {'points': pts, 'p': p, 'npart_in': npart_in, 'npart_out': npart_out, 'shape': shape}
+    df = sp.GeoDataFrame({'geometry': gen.build('point', pts), 'v': list(range(n))})
+    with dask.config.set(scheduler='synchronous'):
+        try:
+            packed = _ddf(df, npart_in).pack_partitions(npartitions=npart_out, p=p)
+            allrows = packed.compute()
+        except Exception:
+            return []          # "when the call raises instead of returning ... nothing is claimed" (C09)
+    got = {int(v): int(i) for v, i in zip(allrows['v'], allrows.index)}
+    bad = [i for i in range(n) if got.get(i) != exp[i]]
+    if bad:
+        return [V(f'dask.pack_partitions/reference-distance/{shape}', f'rows {bad}: got {[got.get(i) for i in bad]} expected {[exp[i] for i in bad]}', recipe)]
+    return []
+
+
+c_pack_reference.n = {'quick': 25, 'thorough': 150}
 
 
 @check(('C12', 'C20', 'C06', 'C13'), 'dask.parquet-bounds-and-geometry')
